@@ -12,7 +12,7 @@ from .. import build, sp
 ID = "C16"
 META = {
     "technique": "runtime monitoring: permutation/stability/attachment postcondition on the real SortBlocksByTypeAndKeyMiddleware.transform over enumerated small libraries x all type orders x both comment modes",
-    "level_text": "All libraries of up to 3 blocks over a 15-block universe (equal keys across types, empty key, failed/duplicate/middleware-error blocks, both comment kinds) x all 326 sub-permutations of the five block types x both comment modes, plus random libraries of 4-40 blocks with leading/inner/trailing comment runs, are sorted by the real middleware; the result must be a permutation (fingerprints), sorted stably by (rank, key), keep each comment run above its block, leave the input untouched and share no mutable object with it. Libraries edited after construction (every library of 2-3 universe blocks with one block removed or re-added; 30 % of the random ones with 1-8 remove/re-add/add/replace steps) are sorted as well.",
+    "level_text": "All libraries of up to 3 blocks over a 19-block universe (equal keys across types, empty key, failed/duplicate/middleware-error blocks, both comment kinds) x all 326 sub-permutations of the five block types x both comment modes, plus random libraries of 4-40 blocks with leading/inner/trailing comment runs, are sorted by the real middleware; the result must be a permutation (fingerprints), sorted stably by (rank, key), keep each comment run above its block, leave the input untouched and share no mutable object with it. Libraries edited after construction (every library of 2-3 universe blocks with one block removed or re-added; 30 % of the random ones with 1-8 remove/re-add/add/replace steps) are sorted as well.",
     "level_note": "rank uses the exact class; blocks without a key sort with key ''; the place of a trailing comment-only run is not prescribed (only that it stays contiguous and in order)",
 }
 RULE = ("case = (library spec, type order, preserve_comments); non-trivial = the library has >= 2 blocks of one class with equal keys or a "
@@ -27,6 +27,9 @@ UNIVERSE = [
     ["failed", "@a{broken"], ["dupkey", "a", ["entry", "misc", "a", [["t", "{3}"]], "@misc{a, t = {3}}"]],
     ["mwerror", ["entry", "misc", "zz", [["author", "{A, B, C, D}"]], "@misc{zz}"], "invalidname"],
     ["mwerror", ["entry", "misc", "yy", [["title", "{x}"]], "@misc{yy}"], "partial"],
+    # failed blocks that wrap something other than an entry (seed C16-m: a middleware-error block around a comment was taken for a comment)
+    ["mwerror", ["ecomment", "ec3"], "ValueError"], ["mwerror", ["icomment", "ic3"], "partial"], ["mwerror", ["string", "a", "{z}"], "ValueError"],
+    ["dupfield", ["t"], ["entry", "misc", "b", [["t", "{1}"], ["t", "{2}"]], "@misc{b, t = {1}, t = {2}}"]],
 ]
 TYPE_NAMES = ["String", "Preamble", "Entry", "ImplicitComment", "ExplicitComment"]
 
@@ -42,7 +45,7 @@ ORDERS = type_orders()
 
 
 def exhaustive(tier):
-    return f"all libraries of 0..{tier_pick(tier, 3, 3)} distinct universe blocks (14) x all {len(ORDERS)} type orders + default x both comment modes"
+    return f"all libraries of 0..{tier_pick(tier, 3, 3)} distinct universe blocks ({len(UNIVERSE)}) x all {len(ORDERS)} type orders + default x both comment modes"
 
 
 def cases(tier, seed, shard, nshards):
@@ -53,7 +56,7 @@ def cases(tier, seed, shard, nshards):
                 idx += 1
                 if idx % nshards != shard:
                     continue
-                if tier == "quick" and n == 3 and (idx // nshards + seed) % 8:
+                if tier == "quick" and n == 3 and (idx // nshards + seed) % 16:
                     continue
                 for mode in (False, True):
                     specs = [UNIVERSE[i] for i in sel]
@@ -67,6 +70,9 @@ def cases(tier, seed, shard, nshards):
     for n in (2, 3):
         for sel in itertools.permutations(range(len(UNIVERSE)), n):
             for j in range(n):
+                if tier == "quick" and n == 3 and (idx + seed) % 4:
+                    idx += 1
+                    continue
                 for oi in range((idx + j) % stride, len(ORDERS), stride):
                     idx += 1
                     if idx % nshards != shard:
